@@ -67,8 +67,11 @@ def make_job(rng, kind, late=False):
     fr = linkgen.gen_movie(rng, quarter=q, nframes=rng.randint(2, 6))
     ndim = fr[0].shape[1]
     sr = linkgen.gen_range(rng, ndim, quarter=q, aniso=(ndim > 1 and rng.random() < 0.3))
-    return c02.safe_strategy(dict(kind=kind, frames=fr, sr=sr, memory=rng.choice([0, 1, 2, 3]), ndim=ndim, max_size=linkgen.LIMIT,
-                                  strategy=rng.choice(['recursive', 'nonrecursive', 'numba'])))
+    job = c02.safe_strategy(dict(kind=kind, frames=fr, sr=sr, memory=rng.choice([0, 1, 2, 3]), ndim=ndim, max_size=linkgen.LIMIT,
+                                 strategy=rng.choice(['recursive', 'nonrecursive', 'numba'])))
+    # a table job may leave pos_columns to the guess (needs 2 or 3 dimensions and a non-empty first frame)
+    job['guess_pos'] = kind == 'df_iter' and ndim >= 2 and len(fr[0]) > 0 and rng.random() < 0.5
+    return job
 
 
 def start(job):
@@ -92,6 +95,9 @@ def start(job):
     cols = ['x', 'y', 'z'][:job['ndim']][::-1]
     if k == 'df_iter':
         dfs = [pd.DataFrame({**{c: f[:, i] for i, c in enumerate(cols)}, 'frame': t}) for t, f in enumerate(job['frames'])]
+        if job.get('guess_pos'):
+            # pos_columns left to link_df_iter's guess (from ITS first frame: ['y','x'], or ['z','y','x'] when there is a 'z')
+            return tp.link_df_iter(dfs, srf, memory=job['memory'], link_strategy=job['strategy'])
         return tp.link_df_iter(dfs, srf, pos_columns=cols, memory=job['memory'], link_strategy=job['strategy'])
     raise ValueError(k)
 
@@ -250,6 +256,23 @@ def _run(chk):
             rest = [0] * (na - cut) + [1] * (nsteps(jobs[1]) - 1)
             rng.shuffle(rest)
             sched = [0] * cut + [1] + rest
+        elif rng.random() < 0.12:
+            # two table jobs of DIFFERENT dimensionality that both leave pos_columns to the guess, in either order,
+            # sequentially or interleaved: what one job guessed must not be remembered for the other
+            def table_job(nd):
+                for _ in range(200):
+                    j = make_job(rng, 'df_iter')
+                    if j['ndim'] == nd and len(j['frames'][0]) > 0:
+                        j['guess_pos'] = True
+                        return j
+                return None
+            a, b = table_job(2), table_job(3)
+            if a is None or b is None:
+                continue
+            jobs = [a, b] if rng.random() < 0.5 else [b, a]
+            sched = [j for j, job in enumerate(jobs) for _ in range(nsteps(job))]
+            if rng.random() < 0.5:
+                rng.shuffle(sched)
         else:
             nj = rng.choice([2, 2, 3])
             kinds = [rng.choice(['iter', 'iter', 'df_iter', 'whole'] + (['find_link', 'find_link'] if rng.random() < 0.3 else [])) for _ in range(nj)]
